@@ -58,7 +58,10 @@ def run_arm(op, unary=False):
             st.env["$nops"] = k + 1
             b = ex.fresh_bv("operand%d" % k, 1)
             st.env["$b%d" % k] = b
-            return [(Enum("Bool", [b]), [], "op%d=Bool" % k), (Enum("Null"), [], "op%d=Null" % k)]
+            # a non-boolean, non-null operand (a property whose type varies between nodes): the logic operators must treat it as
+            # unknown - otherwise WHERE p / WHERE NOT p / WHERE p IS NULL lose the row
+            return [(Enum("Bool", [b]), [], "op%d=Bool" % k), (Enum("Null"), [], "op%d=Null" % k),
+                    (Enum("Int", [ex.fresh_bv("other%d" % k, 64)]), [], "op%d=Other" % k)]
 
         ex = Exec(fn, GENERIC_MODELS + [(r"^evaluate_expression_value::<", m_eval)], bound=2, variant_index=vi, max_paths=2000)
         st = State()
@@ -87,6 +90,8 @@ def run_arm(op, unary=False):
             for k in range(nops):
                 if ("op%d=Null" % k) in p.events:
                     vals.append([N])
+                elif ("op%d=Other" % k) in p.events:
+                    vals.append(["O"])
                 else:
                     b = p.st.env["$b%d" % k]
                     opts = []
@@ -100,13 +105,16 @@ def run_arm(op, unary=False):
             for combo in itertools.product(*vals):
                 cons = []
                 for k, v in enumerate(combo):
-                    if v != N:
+                    if v not in (N, "O"):
                         cons.append(p.st.env["$b%d" % k] == (TRUE if v == T else FALSE))
                 if cons and not ex.feasible(p.pc, z3.And(cons)):
                     continue
                 n += 1
                 seen.add(combo)
-                want = kleene(op, *combo)
+                if op in ("IsNull", "IsNotNull"):
+                    want = kleene(op, *[N if v == N else (T if v == "O" else v) for v in combo])
+                else:
+                    want = kleene(op, *[N if v == "O" else v for v in combo])
                 if isinstance(ret, Enum) and ret.variant == "Null":
                     got = N
                 elif isinstance(ret, Enum) and ret.variant == "Bool":
@@ -122,11 +130,11 @@ def run_arm(op, unary=False):
                     got = repr(ret)
                 if got != want:
                     failed.append("%s%s evaluates to %s, three-valued logic requires %s" % (op, tuple(combo), got, want))
-        need = 3 if unary else 9
+        need = 4 if unary else 16
         if len(seen) != need:
             failed.append("only %d of the %d truth-table rows of %s are reachable" % (len(seen), need, op))
         res = {"paths": n, "queries": ex.queries, "solver_time_s": round(ex.solver_time, 3),
-               "sample": ["%s%s -> %s" % (op, c, kleene(op, *c)) for c in sorted(seen)][:9], "functions": [fn.header[:80] + " (%s arm, entry %s)" % (op, entry)]}
+               "sample": ["%s%s" % (op, c) for c in sorted(seen)][:16], "functions": [fn.header[:80] + " (%s arm, entry %s)" % (op, entry)]}
         if failed:
             res.update({"status": "fail", "failed": sorted(set(failed)), "reason": "; ".join(sorted(set(failed)))[:400]})
         else:
@@ -140,4 +148,12 @@ TARGETS = [
     {"name": "c23_o4_q_or_truth_table", "crate": "nervusdb-query", "run": run_arm("Or")},
     {"name": "c23_o4_q_xor_truth_table", "crate": "nervusdb-query", "run": run_arm("Xor")},
     {"name": "c23_o4_q_not_truth_table", "crate": "nervusdb-query", "run": run_arm("Not", unary=True)},
+]
+
+# C19 relies on the same closure property: a predicate built from AND / OR / XOR / NOT over operands of any type evaluates to true,
+# false or null - otherwise a row is in none of WHERE p, WHERE NOT p, WHERE p IS NULL
+TARGETS += [
+    {"name": "c19_o3_q_and_is_three_valued_for_any_operand", "crate": "nervusdb-query", "run": run_arm("And")},
+    {"name": "c19_o3_q_or_is_three_valued_for_any_operand", "crate": "nervusdb-query", "run": run_arm("Or")},
+    {"name": "c19_o3_q_not_is_three_valued_for_any_operand", "crate": "nervusdb-query", "run": run_arm("Not", unary=True)},
 ]
